@@ -116,8 +116,18 @@ func ruleLITTYPE(c *Ctx, r *Report) {
 			}
 		default:
 			nW++
-			// bare word paths: the typing order
-			want := []string{"int", "float", "wild", "escape"}
+			// bare word paths: the typing order. Only the numeric readings are ordered among themselves (every
+			// integer text is a float text too) and must both precede the plain-text leaf; the wildcard test may
+			// stand anywhere before that — no text containing * or ? reads as a number, so it commutes with them.
+			var seqNW []string
+			for _, s := range seq {
+				if s != "wild" {
+					seqNW = append(seqNW, s)
+				}
+			}
+			seqAll := seq
+			seq = seqNW
+			want := []string{"int", "float", "escape"}
 			idx := -1
 			okOrder := true
 			for _, s := range seq {
@@ -134,6 +144,7 @@ func ruleLITTYPE(c *Ctx, r *Report) {
 					idx = j
 				}
 			}
+			seq = seqAll
 			kind := "plain"
 			if len(seq) > 0 {
 				kind = seq[len(seq)-1]
@@ -162,10 +173,11 @@ func ruleLITTYPE(c *Ctx, r *Report) {
 				r.bad(rule, key, pos, "a word containing * or ? must become a Wild leaf")
 			case strings.HasSuffix(argKey, "#0") && strings.Contains(argKey, "ParseFloat") && !contains(seq, "int"):
 				r.bad(rule, key, pos, "a float literal is produced without first trying to type the word as an int")
-			case len(ops) == 1 && ops[0] == "expr.Wild" && !(contains(seq, "int") && contains(seq, "float")):
-				r.bad(rule, key, pos, "a wildcard leaf is produced without first trying numeric typing")
 			case numericReadingIgnored(p.Atoms, argKey) != "":
 				r.bad(rule, key+"|ignored", pos, fmt.Sprintf("on this path %s, yet the leaf carries %s: a word that reads as a number is typed as something else, so it is quoted in SQL and compared as text", numericReadingIgnored(p.Atoms, argKey), argKey))
+			case len(ops) == 1 && ops[0] == "expr.Wild" && pathHasWildcard(c, p.Atoms):
+				// the path established that the word contains * or ?: it cannot read as a number
+				r.ok(rule, key, pos, "pattern leaf under a positive * / ? test")
 			case !strings.Contains(argKey, "strconv.") && !(contains(seq, "int") && contains(seq, "float")):
 				r.bad(rule, key, pos, fmt.Sprintf("a bare word becomes a leaf with the text payload %s on a path where the int and float readings have not both been tried (tests on this path: %v): some numbers are typed as strings, so they are quoted in SQL and compared as text", argKey, seq))
 			default:
@@ -237,6 +249,30 @@ func ruleNODESOURCES(c *Ctx, r *Report) {
 	if pt.Wrapper != nil {
 		allowed[pt.Wrapper] = "default-field wrapper"
 	}
+	// a private helper that only reducers (or such helpers) call builds nodes on a reducer's behalf: the
+	// production table reads it in place, so PROD-GUARD still checks where its operands come from
+	for changed := true; changed; {
+		changed = false
+		for _, f := range c.Funcs {
+			if fnPkgPath(f) != pkgReduce || f.Parent() != nil || allowed[f] != "" {
+				continue
+			}
+			sites, ok := c.privateHelper(f)
+			if !ok || len(sites) == 0 {
+				continue
+			}
+			all := true
+			for _, cs := range sites {
+				if allowed[cs.Parent()] == "" {
+					all = false
+				}
+			}
+			if all {
+				allowed[f] = "helper of a reducer"
+				changed = true
+			}
+		}
+	}
 	allowed[pr.ParseLoop] = "acceptance case"
 	for _, g := range c.acceptHelpers(pr) {
 		allowed[g] = "acceptance case (helper tail-called by the parse loop at end of input)"
@@ -260,6 +296,23 @@ func ruleNODESOURCES(c *Ctx, r *Report) {
 				n++
 				key := fnName(f) + "|" + fnName(callee)
 				if why, ok := allowed[f]; ok {
+					if why == "helper of a reducer" {
+						// such a helper may assemble operator nodes from the operands it is given; a leaf built there
+						// (from a number it parsed, a text it rewrote) is content no token carried
+						leaf := false
+						for _, o := range c.ctorOperatorsDeep(callee, 0) {
+							if o == "expr.Literal" || o == "expr.Wild" || o == "expr.Regexp" {
+								leaf = true
+							}
+						}
+						if len(c.ctorOperator(callee)) == 0 && callee != c.pkgFunc(pkgExpr, "Expr") {
+							leaf = true // a constructor whose node kind is not fixed (classifies by content)
+						}
+						if leaf {
+							r.bad(rule, key, c.instrPos(in), fnName(f)+", a helper of the reducers, builds a leaf node: leaves come from the token→literal function only — a leaf made from a value the helper derived (a quoted text re-read as a number, say) is content that no token of the input carried in that form")
+							continue
+						}
+					}
 					if f == pr.ParseLoop {
 						// must be inside the acceptance block
 						acc := false
@@ -360,6 +413,18 @@ func ruleDFFLOW(c *Ctx, r *Report) {
 		}
 	}
 	isCarrierArg := func(f *ssa.Function, a ssa.Value) bool {
+		// a conversion between string-kinded types (a named type for the field name) hands the same name on
+		for {
+			if cv, ok := a.(*ssa.ChangeType); ok && isStringKind(cv.Type()) {
+				a = cv.X
+				continue
+			}
+			if cv, ok := a.(*ssa.Convert); ok && isStringKind(cv.Type()) && isStringKind(cv.X.Type()) {
+				a = cv.X
+				continue
+			}
+			break
+		}
 		k := c.key(a, nil)
 		if strings.HasSuffix(k, "."+pr.DefF.Name()) && !strings.ContainsAny(k, "(,") {
 			return true
@@ -421,7 +486,7 @@ func ruleDFFLOW(c *Ctx, r *Report) {
 						mentions = true
 					}
 				}
-				if f == pt.Wrapper && (a.Subj == "$1" || strings.Contains(s, "$1")) {
+				if fk := fmt.Sprintf("$%d", pt.WFld); f == pt.Wrapper && (a.Subj == fk || strings.Contains(s, fk)) {
 					n++
 					r.ok(rule, fnName(f)+"|"+s, c.instrPos(iff), "the wrapper may test the field name")
 					continue
@@ -1743,4 +1808,14 @@ func ruleESCDECODE(c *Ctx, r *Report) {
 	}
 	r.floor(rule, "bare-word text leaves", nLit, 1)
 	r.floor(rule, "wildcard leaves", nWild, 1)
+}
+
+// pathHasWildcard: some atom of the path says positively that the token text contains * or ?.
+func pathHasWildcard(c *Ctx, atoms []Atom) bool {
+	for _, a := range atoms {
+		if _, set, pos, ok := c.charsetAtom(a); ok && pos && strings.ContainsAny(set, "*?") && !strings.ContainsAny(set, "0123456789") {
+			return true
+		}
+	}
+	return false
 }
